@@ -61,8 +61,12 @@ def _emit_kv(k, v, ind, out, pad):
 
 
 def ystr(s):
-    """YAML scalar for an id-like string"""
-    return '""' if s == "" else s
+    """YAML scalar for an id-like string (quoted when it has surrounding blanks)"""
+    if s == "":
+        return '""'
+    if s != s.strip():
+        return '"' + s + '"'
+    return s
 
 
 def num_text(r, v):
@@ -556,6 +560,20 @@ def m_fn_dangling(r, cfg, pre):
     ms.insert(r.below(len(ms) + 1), r.pick([f"{pre}nope", "", f"{pre}s0"]))
 
 
+def m_fn_near_miss(r, cfg, pre):
+    """a member id that is ALMOST an existing curve id (surrounding blank, other case, trailing dot): the
+    validator compares ids exactly, exactly like the registry lookup at evaluation time"""
+    fn = _ensure_fn(r, cfg, pre, 1)
+    c = r.pick(fn)
+    ms = c["function"]["curves"]
+    others = [x["id"] for x in cfg["curves"] if x.get("id") and x["id"] != c["id"]]
+    if not others:
+        return
+    base = r.pick(others)
+    near = r.pick([" " + base, base + " ", " " + base + " ", base.upper() if base.upper() != base else base + ".", base + "."])
+    ms.insert(r.below(len(ms) + 1), near)
+
+
 def plant_cycle(r, cfg, pre, length):
     fn = _ensure_fn(r, cfg, pre, max(1, length))
     nodes = r.sample(fn, length)
@@ -797,7 +815,7 @@ def m_fatal(r, cfg, pre):
 MUTATIONS = [
     m_sensor_dup, m_sensor_noid, m_sensor_nobackend, m_sensor_more, m_sensor_index, m_sensor_add_cmd,
     m_curve_dup, m_curve_noid, m_curve_nobackend, m_curve_more,
-    m_fn_type, m_fn_members_empty, m_fn_members_one, m_fn_members_many, m_fn_self, m_fn_dangling, m_fn_cycle,
+    m_fn_type, m_fn_members_empty, m_fn_members_one, m_fn_members_many, m_fn_self, m_fn_dangling, m_fn_near_miss, m_fn_cycle,
     m_lin_sensor, m_lin_steps, m_lin_steps, m_pid_zero, m_curves_absent,
     m_fn_type_and_empty, m_lin_sensor_and_empty_steps, m_fan_ca_empty_and,
     m_fan_dup, m_fan_noid, m_fan_nobackend, m_fan_more, m_fan_curve, m_fan_ca, m_fan_ca, m_fan_hwmon, m_fan_hwmon,
@@ -816,7 +834,7 @@ def apply_mutation(r, m, cfg, pre):
 def case_lines(cfg, run=True, vals=None, label="cfg"):
     y = to_yaml(cfg)
     b = base64.b64encode(y.encode()).decode()
-    ops = [f"#case {label}", f"cfg.load yaml={b} mode={cfg.get('mode', '644')} spec={to_spec(cfg)}"]
+    ops = [f"#case {label}", f"cfg.load yaml={b} mode={cfg.get('mode', '644')} spec={to_spec(cfg).replace(' ', '~')}"]
     if run:
         vals = vals or [30000, 55000, 90000]
         ops.append("cfg.run vals=%s now=1000000000" % ",".join(str(v) for v in vals))
